@@ -90,3 +90,23 @@ package corebgp
 //@ chaninv peer.errorCh(e) = e != nil && (hasType(e, *notificationError) ==> firstOf(e, *notificationError) != nil && firstOf(e, *notificationError).notification != nil)
 // encoded capability list: cap k starts at offs[k] in bytes v
 //@ pure encCapOK(v, o, cap) = 0 <= o && o + 2 + len(cap.Value) <= len(v) && v[o] == cap.Code && v[o+1] == len(cap.Value) && (forall i :: 0 <= i && i < len(cap.Value) ==> v[o+2+i] == cap.Value[i])
+
+// ---- FSM goroutine ghost state ----
+//@ ghostfield readerRunning bool
+//@ ghostfield dialPending bool
+//@ joins fsm.readerDoneCh readerRunning
+//@ joins fsm.dialResultCh dialPending
+//@ delivers fsm.dialResultCh
+// the FSM object as its own goroutine sees it (immutable parts + plugin present)
+//@ pure fsmSelf(f) = f != nil && f.peer != nil && f.peer.plugin != nil && f.closeCh != nil && f.doneCh != nil && f.idleHoldTimer != nil && f.peer.transitionCh[0] != nil && f.peer.transitionCh[1] != nil && f.peer.errorCh[0] != nil && f.peer.errorCh[1] != nil && (f.peer.options.holdTime == 0 || f.peer.options.holdTime >= 3000000000) && f.peer.options.holdTime <= 65535000000000 && f.peer.options.holdTime % 1000000000 == 0
+// a live connection with its reader
+//@ pure connUp(f) = f.conn != nil && !connClosed(f.conn) && readerRunning(f) && f.readerMsgCh != nil && f.readerErrCh != nil && f.readerDoneCh != nil && f.closeReaderCh != nil && (chanClosed(f.closeReaderCh) == onceDone(f.closeReaderOnce))
+//@ pure lastNotif(c, code, sub) = lastKind(c) == 3 && lastCode(c) == code && lastSub(c) == sub
+
+// what the reader goroutine hands to the FSM (rely/guarantee at the rendezvous: an
+// obligation at every send in fsm.read, a hypothesis at every receive)
+//@ pure openParamsOK(o) = forall k :: 0 <= k && k < len(o.optionalParams) ==> isType(o.optionalParams[k], *capabilityOptionalParam) && asType(o.optionalParams[k], *capabilityOptionalParam) != nil
+//@ chaninv fsm.readerMsgCh(m) = m != nil && (isType(m, *openMessage) ==> asType(m, *openMessage) != nil && openParamsOK(asType(m, *openMessage))) && (isType(m, *Notification) ==> asType(m, *Notification) != nil && len(asType(m, *Notification).Data) <= 4075) && (isType(m, *keepAliveMessage) ==> asType(m, *keepAliveMessage) != nil)
+//@ pure errWellFormed(e) = hasType(e, *notificationError) ==> firstOf(e, *notificationError) != nil && firstOf(e, *notificationError).notification != nil && len(firstOf(e, *notificationError).notification.Data) <= 4075
+//@ chaninv fsm.readerErrCh(e) = e != nil && errWellFormed(e) && (hasType(e, *notificationError) ==> firstOf(e, *notificationError).out)
+//@ pure errCarries(e, n, out) = hasType(e, *notificationError) && firstOf(e, *notificationError) != nil && firstOf(e, *notificationError).notification == n && firstOf(e, *notificationError).out == out
